@@ -24,7 +24,7 @@ func init() {
 		Explanation: "LAYOUT: Install, GetPluginBinaryPath and ListInstalledPlugins agree on <plugins>/<repo>/octosql-plugin-<name>/<version>[/octosql-plugin-<name>]; the listing strips exactly the prefix the writers add and never splits on dashes. " +
 			"DESC: installed and manifest version lists are sorted descending (less(i,j) = v[i].GreaterThan(v[j])). " +
 			"FIRST: startup picks the first installed version satisfying the constraint for the plugin with the same full reference; install picks the first manifest version satisfying the constraint, or the first without prerelease when none is given; both stop at the first hit.",
-		NotDecided: []string{"semver's own comparison and constraint semantics (Masterminds/semver)", "duplicate repository slugs (the code carries a TODO)"},
+		NotDecided:  []string{"semver's own comparison and constraint semantics (Masterminds/semver)", "duplicate repository slugs (the code carries a TODO)"},
 		Assumptions: []string{"Masterminds/semver orders versions and evaluates constraints correctly"},
 	})
 }
